@@ -196,13 +196,39 @@ func inputClass(inputs []gramenum.Input) string {
 	return "single-input"
 }
 
+// family2: two conflict groups in one grammar, which need different amounts of lookahead and
+// share (or do not share) lookahead-automaton structure:
+//
+//	S: A u1 tc | B u1 td | A u2 te | B u2 tf ;  A: ta ;  B: ta
+//
+// for all unordered pairs of distinct words u1,u2 over {a,b}. terminals: 1=a 2=b 3=c 4=d 5=e 6=f;
+// nonterminals 7=S 8=A 9=B.
+func family2(maxU int) []*gramenum.Gram {
+	var out []*gramenum.Gram
+	ws := words([]int{1, 2}, maxU, false)
+	for i, u1 := range ws {
+		for _, u2 := range ws[i+1:] {
+			g := &gramenum.Gram{T: 6, N: 3}
+			g.Rules = append(g.Rules,
+				gramenum.Rule{LHS: 7, RHS: append(append([]int{8}, u1...), 3)},
+				gramenum.Rule{LHS: 7, RHS: append(append([]int{9}, u1...), 4)},
+				gramenum.Rule{LHS: 7, RHS: append(append([]int{8}, u2...), 5)},
+				gramenum.Rule{LHS: 7, RHS: append(append([]int{9}, u2...), 6)},
+				gramenum.Rule{LHS: 8, RHS: []int{1}},
+				gramenum.Rule{LHS: 9, RHS: []int{1}})
+			out = append(out, g)
+		}
+	}
+	return out
+}
+
 func run(c *core.Ctx) {
 	L := 6
 	if !c.Quick() {
 		L = 7
 	}
 	c.Set("L", L)
-	c.Rule("(a) family S: A u x | B u y, A: w, B: w for all words w (|w|<=2), u (|u|<=2 quick / 3 thorough) over {a,b}, with variants: shared suffix nonterminal, nullable symbol inside the suffix, a second conflict pair sharing the lookahead automaton; eoi and no-eoi input; k = 1..8; (b) every reduced rule set of the tiny scope compiled with lalr(2) and lalr(3). For every successful compile every token string <= L vs the CFG oracle. non-trivial = successful compile that used deep lookahead (UsedLADepth>0)")
+	c.Rule("(a) family S: A u x | B u y, A: w, B: w for all words w (|w|<=2), u (|u|<=2 quick / 3 thorough) over {a,b}, with variants: shared suffix nonterminal, nullable symbol inside the suffix, a second conflict pair sharing the lookahead automaton; eoi and no-eoi input; k = 1..8; (a2) two-group family S: A u1 tc | B u1 td | A u2 te | B u2 tf for all unordered pairs of distinct words (|u|<=2 quick / 3 thorough), k=1..4/8; (b) every reduced rule set of the tiny scope compiled with lalr(2) and lalr(3). For every successful compile every token string <= L vs the CFG oracle. non-trivial = successful compile that used deep lookahead (UsedLADepth>0)")
 	var cnt counters
 	fam := family(c.Quick())
 	type job struct {
@@ -227,6 +253,27 @@ func run(c *core.Ctx) {
 		j := jobs[i]
 		checkCase(caseT{Grammar: j.g.String(), G: j.g, Inputs: []gramenum.Input{{NT: 5, Eoi: j.eoi}}, K: j.k}, L, &cnt, c)
 	})
+	// two-group family
+	maxU2, L2, maxK2 := 2, 4, 4
+	if !c.Quick() {
+		maxU2, L2, maxK2 = 3, 5, 8
+	}
+	fam2 := family2(maxU2)
+	var jobs2 []job
+	for _, g := range fam2 {
+		for k := 1; k <= maxK2; k++ {
+			jobs2 = append(jobs2, job{g, k, true})
+		}
+	}
+	core.ParallelFor(len(jobs2), 16, func(i int) {
+		if c.Expired() {
+			c.Capped("two-group family not completed (budget)")
+			return
+		}
+		j := jobs2[i]
+		checkCase(caseT{Grammar: j.g.String(), G: j.g, Inputs: []gramenum.Input{{NT: 7, Eoi: true}}, K: j.k}, L2, &cnt, c)
+	})
+	c.Set("two_group_family_grammars", len(fam2))
 	c.Set("family_grammars", len(fam))
 	c.Sample(map[string]any{"grammar": fam[3].String(), "k": "1..8"})
 	// (b)
